@@ -29,7 +29,8 @@ ASSUMPTIONS = [
     "allowed set = ML_ALLOWLIST at import time + the also_allow list of the activation",
 ]
 
-VIA = ["loads", "load", "Unpickler", "c_loads", "c_load", "c_Unpickler"]
+VIA = ["loads", "load", "Unpickler", "c_loads", "c_load", "c_Unpickler", "direct:pickle.loads", "direct:_pickle.loads"]
+# the last two are the pickle-module functions themselves, allow-listed by the user and named directly by the outer pickle
 
 
 def _ensure_loader():
@@ -73,30 +74,33 @@ INNER = [
 def wrap(inner, vias):
     data = inner
     for v in reversed(vias):
-        data = ("czqv_loader\nvia_%s\n" % VIA[v]).encode() + b"(" + bbytes(data) + b"tR."
+        if VIA[v].startswith("direct:"):
+            mod, name = VIA[v][7:].rsplit(".", 1)
+            data = ("c%s\n%s\n" % (mod, name)).encode() + b"(" + bbytes(data) + b"tR."
+        else:
+            data = ("czqv_loader\nvia_%s\n" % VIA[v]).encode() + b"(" + bbytes(data) + b"tR."
     return data
 
 
 def make_mediated(entry, depth):
     def lem(v0: int, v1: int, v2: int) -> bool:
         """
-        pre: 0 <= v0 < 6 and 0 <= v1 < 6 and 0 <= v2 < 6
+        pre: 0 <= v0 < 8 and 0 <= v1 < 8 and 0 <= v2 < 8
         post: _
         """
         vias = []
         for i, v in enumerate((v0, v1, v2)):
             if i < depth:
-                vias.append(pin(v, 0, 5))
+                vias.append(pin(v, 0, len(VIA) - 1))
             elif v != 0:
                 return True
-        if QUICK[0] and depth == 3 and not (vias[0] == vias[1] or vias[1] == vias[2]):
-            return True
         key = "nested-via-Unpickler-class" if any(VIA[v].endswith("Unpickler") for v in vias) else None
         if rt.skip(key):
             return True
         with native():
             # additions and innermost programs are enumerated inside the cell
-            for adds in (0, 1):
+            # narrow additions, wide additions, narrow again: an activation must not inherit anything from the previous one
+            for adds in (0, 1, 0):
                 for inner in range(len(INNER)):
                     if not _mediated(entry, adds, vias, inner):
                         LAST[0] = "entry=%s vias=%s adds=%d inner=%s" % (["pickle.load", "pickle.loads", "_pickle.load", "_pickle.loads"][entry], [VIA[v] for v in vias], adds, INNER[inner][0])
@@ -124,7 +128,7 @@ def _mediated(entry, adds, vias, inner):
     _ensure_loader()
     name, prog, ok_expected = INNER[inner]
     data = wrap(prog, vias)
-    also = ["zqv_loader.via_%s" % v for v in VIA]
+    also = ["zqv_loader.via_%s" % v for v in VIA if not v.startswith("direct:")] + [v[7:] for v in VIA if v.startswith("direct:")]
     if adds:
         also += ["zqv_ok.g", "collections.deque"]
     allowed = {(m, n) for m, d in ML_ALLOWLIST.items() for n in d} | {tuple(a.rsplit(".", 1)) for a in also}
@@ -206,10 +210,10 @@ def lemmas(tier):
             fn = make_mediated(entry, depth)
             L.append(Lemma(fn.__name__, fn, timeout=400 if q else 2000, replay=make_replay(entry, depth),
                            dry=[{"v0": 0, "v1": 0, "v2": 0}, {"v0": 1 if depth else 0, "v1": 3 if depth > 1 else 0, "v2": 0}],
-                           doc={"F": ["solver-partitioned: loader stand-in per nesting level (6 each): %s" % VIA,
+                           doc={"F": ["solver-partitioned: loader stand-in per nesting level (8 each): %s" % VIA,
                                       "enumerated inside each cell: additions (2 sets) x innermost program (11: benign, allow-listed, sink through every global/call opcode, os.system, added global, other member of an allow-listed module)",
                                       "entry point %s, nesting depth %d" % (["pickle.load", "pickle.loads", "_pickle.load", "_pickle.loads"][entry], depth)],
-                                "bound": "depth <= 3" + ("; quick: at depth 3 two adjacent levels use the same stand-in" if q else "")}))
+                                "bound": "depth <= 3"}))
     return L + [
         Lemma("find_class_lemma", find_class_lemma, timeout=200, dry=[{"mi": 0, "ni": 0, "adds": 0}, {"mi": 2, "ni": 2, "adds": 1}],
               doc={"F": ["12 modules x 8 names x 3 addition sets: super().find_class reached iff allowed"], "bound": "listed names"}),
